@@ -8,6 +8,24 @@ var commonAssumptions = []string{
 }
 
 func init() {
+	register("C11", &propDef{
+		Run: runC11,
+		Info: propInfo{
+			Explanation: "Demultiplexing rules of the UDP listener on SSA/CFG/call graph: the connection table is looked up, inserted and deleted with String() of the same remote address (the datagram's in getConn, the conn's own rAddr - recorded from that address by newConn - in both Close paths); the dispatcher writes its own payload into the buffer of the conn returned for its own address, only when a conn was reported; address, payload and length come from the same read / the same batch index; a conn is registered only on the success edge of the non-blocking enqueue, on the accepting edge, under connLock, and it is the queued conn; the accept filter's false edge cannot reach registration; a single goroutine (read loop started once by the constructor, no go on the dispatch path) dispatches; the reused receive buffer is never retained (taint through getConn and Buffer.Write); Conn.Close unregisters its own key under connLock on every path; readers keep no per-remote cache. Byte identity inside the buffer is C06.",
+			RuleText:    "one obligation per rule; sites are map operations, calls, stores and call-graph edges; non-trivial = matched at least one site",
+			Assumptions: commonAssumptions,
+		},
+		Thorough: []LoadCfg{{GOOS: "windows", GOARCH: "amd64"}, {GOOS: "darwin", GOARCH: "arm64"}, {GOOS: "linux", GOARCH: "386"}},
+	})
+	register("C12", &propDef{
+		Run: runC12,
+		Info: propInfo{
+			Explanation: "Reference-counting discipline that decides when the shared socket is closed, on SSA/CFG + lockset: exactly one close site of the socket, dominated by connWG.Wait(); every Done is once-only (sync.Once closure) or undoes the Add of its own path; every Add is in the constructor before any goroutine starts, or under connLock on the accepting edge, in the same critical section as and before the enqueue; a conn leaving the backlog is handed to Accept's caller or released (drain unregisters + Done under connLock; failed enqueue gives the reference back; Accept returns what it receives and never Adds); Conn.Close must-pass buffer.Close and unregisters; listener Close clears accepting and closes doneCh (once) before taking connLock, and drops its own reference only after the drain's critical section; Accept fails after doneCh is closed; lock balance. Goroutine termination and port reuse are consequences of the count reaching zero exactly once and are not separately decided.",
+			RuleText:    "one obligation per rule; sites are WaitGroup operations, channel operations, lock operations and returns; non-trivial = matched at least one site",
+			Assumptions: commonAssumptions,
+		},
+		Thorough: []LoadCfg{{GOOS: "windows", GOARCH: "amd64"}, {GOOS: "darwin", GOARCH: "arm64"}},
+	})
 	register("C06", &propDef{
 		Run: runC06,
 		Info: propInfo{
